@@ -34,12 +34,14 @@ where CL03<CS>: Scheme<PubKey = CL03PublicKey, PrivKey = CL03SecretKey>, CS::Has
     let worlds: Vec<World<CS>> = { let v = std::sync::Mutex::new(Vec::new()); par_for(&[0, 1], |_, _| { let w = World::<CS>::generate(maxn + 1); v.lock().unwrap().push(w); }); v.into_inner().unwrap() };
     let (w, other) = (&worlds[0], &worlds[1]);
     #[derive(Clone)]
-    enum Kind { Flow, Leaf(usize, usize), SignFlip }
+    enum Kind { Flow, Leaf(usize, usize), SignFlip, Shape }
     struct Root { id: String, n: usize, u: Vec<usize>, kind: Kind }
     let mut roots = Vec::new();
     for n in 1..=maxn { for u in subsets(n) { if n > 3 && !(u.len() <= 1 || u.len() >= n - 1) { continue; } roots.push(Root { id: format!("{}/n{}/hidden{:?}", CS::NAME, n, u), n, u, kind: Kind::Flow }); } }
     let mut classes: Vec<(usize, Vec<usize>)> = vec![(1, vec![]), (1, vec![0]), (2, vec![1]), (3, vec![0, 2])];
     if env.thorough() { classes.push((2, vec![0, 1])); classes.push((3, vec![0, 1, 2])); classes.push((3, vec![])); }
+    for (n, u) in &classes { roots.push(Root { id: format!("{}/shape-edits/n{}/hidden{:?}", CS::NAME, n, u), n: *n, u: u.clone(), kind: Kind::Shape }); }
+    roots.push(Root { id: format!("{}/shape-edits/n3/hidden[0, 1]", CS::NAME), n: 3, u: vec![0, 1], kind: Kind::Shape });
     for (n, u) in classes { let nch = 16; for ch in 0..nch { roots.push(Root { id: format!("{}/leaf-edits/n{}/hidden{:?}/chunk{}", CS::NAME, n, u, ch), n, u: u.clone(), kind: Kind::Leaf(ch, nch) }); } }
     roots.push(Root { id: format!("{}/sign-flip/n2/hidden[1]", CS::NAME), n: 2, u: vec![1], kind: Kind::SignFlip });
     env.ctx.set_rule("flows: n in 1..=3 (thorough 1..=5) x ALL subsets U of hidden positions (none, some, all), commitment key over the issuer modulus: sign_multiattr -> proof_gen(U) -> proof_verify(revealed, U, n) = true; statement edits (each => false, panic counts as refusal): each revealed attribute changed / dropped / duplicated, other signer key, other bases, other commitment key (other h, other g_i, own modulus, and every single field N / h / g_i altered alone), every single field of the signer key and every base altered alone, EVERY other hidden set U', n - 1, n + 1 and n + 2 (with and without extra revealed attributes). Leaf edits: EVERY integer leaf of the serialized proof +1 / -1 / zero / +N / sibling swap => false. Sign flips: every group-element leaf v := N - v, searched over a pool of 32 honest proofs => false. State = (flow, edit); non-trivial = the real verifier ran.");
@@ -68,6 +70,9 @@ where CL03<CS>: Scheme<PubKey = CL03PublicKey, PrivKey = CL03SecretKey>, CS::Has
                 };
                 for k in 0..revealed.len() {
                     let mut r2 = revealed.clone(); r2[k] += 1u32; rej(format!("revealed[{}] += 1", k), "revealed-attribute", &cpk, &w.pk, &bases, &r2, &r.u, n);
+                    // another representative of the same class modulo each public modulus, a negative value, a shifted value
+                    for (nm, d) in [("+N", w.pk.N.clone()), ("+2N", w.pk.N.clone() * 2u32), ("-N", -w.pk.N.clone()), ("+N(commitment key)", cpk.N.clone()), ("+2^256", pow2(256)), ("+2^512", pow2(512))] { let mut rr = revealed.clone(); rr[k] += d; rej(format!("revealed[{}] {}", k, nm), "revealed-attribute", &cpk, &w.pk, &bases, &rr, &r.u, n); }
+                    { let mut rr = revealed.clone(); rr[k] = -rr[k].clone(); if rr[k] != revealed[k] { rej(format!("revealed[{}] negated", k), "revealed-attribute", &cpk, &w.pk, &bases, &rr, &r.u, n); } }
                     let mut r3 = revealed.clone(); r3[k] = Integer::from(0); rej(format!("revealed[{}] := 0", k), "revealed-attribute", &cpk, &w.pk, &bases, &r3, &r.u, n);
                     let mut r4 = revealed.clone(); r4.remove(k); r4.push(Integer::from(7)); rej(format!("revealed[{}] removed (7 appended)", k), "revealed-attribute", &cpk, &w.pk, &bases, &r4, &r.u, n);
                     for k2 in (k + 1)..revealed.len() { let mut r5 = revealed.clone(); r5.swap(k, k2); rej(format!("revealed[{}] <-> revealed[{}]", k, k2), "revealed-attribute", &cpk, &w.pk, &bases, &r5, &r.u, n); }
@@ -104,6 +109,16 @@ where CL03<CS>: Scheme<PubKey = CL03PublicKey, PrivKey = CL03SecretKey>, CS::Has
                 let pool: Vec<Value> = { let v = std::sync::Mutex::new(vec![to_json(&p)]); par_for(&(1..k).collect::<Vec<_>>(), |_, _| { if let O::Ok((_s, q)) = honest::<CS>(w, n, &m, &r.u) { v.lock().unwrap().push(to_json(&q)); } }); v.into_inner().unwrap() };
                 let res = sign_flip_search(&pool, &w.pk.N, &|_k, x| match from_json::<Pok<CS>>(x) { Some(q) => verify::<CS>(&q, &cpk, &w.pk, &bases, &revealed, &r.u, n), None => O::Ok(false) });
                 report_sign_flips(env, &r.id, "signature proof of knowledge", &res, pool.len(), det0.clone());
+            }
+            Kind::Shape => {
+                let j = to_json(&p);
+                for (name, x) in array_shape_edits(&j) {
+                    if !env.ctx.state(&[r.id.as_bytes(), name.as_bytes()]) { continue; }
+                    let p2: Option<Pok<CS>> = from_json(&x);
+                    let got = match &p2 { Some(q) => verify::<CS>(q, &cpk, &w.pk, &bases, &revealed, &r.u, n), None => O::Ok(false) };
+                    expect_bool(env, &r.id, &format!("proof_verify after shape edit [{}]", name), &got, false, true, "shape-edit", json!({"base": det0, "edit": name}));
+                    env.ctx.class(&format!("shape:{}", match got { O::Ok(false) => "rejected", O::Ok(true) => "accepted", _ => "refused-by-panic" })); env.ctx.trace();
+                }
             }
             Kind::Leaf(ch, nch) => {
                 let j = to_json(&p);
